@@ -634,7 +634,7 @@ def verdictExact (poly : List (Mono Rat)) (wPre wB : W Rat) (callerList : PList 
       else if wB.scheme != .two && deg ≤ 2 && !exactTok i2 a2 true then "FAIL:d2_exact_deg2"
       -- without constraints the probes are symmetric
       else if fr && wB.scheme == .two && deg ≤ 1 && !exactTok i1 a1 false then "FAIL:two_point_exact_deg1"
-      -- (three-point scheme: symmetric for a positive step, the hypothesis of `three_point_stored_exact`;
+      -- (three-point scheme: symmetric for a positive step, the hypothesis of `three_point_stored_exact_partial`;
       -- with a negative step the second probe is on the same side as the first one)
       else if fr && wB.scheme == .three && decide (wB.h > 0) && deg ≤ 2 && !exactTok i1 a1 false then "FAIL:three_point_d1_exact_deg2"
       else if fr && wB.scheme == .three && decide (wB.h > 0) && deg ≤ 3 && !exactTok i2 a2 false then "FAIL:three_point_d2_exact_deg3"
